@@ -443,6 +443,15 @@ func (g *Gen) run() {
 			addEdge(b.Succs[0], g.cur)
 		}
 	}
+	// a call-site clause that matched no call: the call the contract talks about is gone
+	if g.ct != nil {
+		for _, s := range g.ct.Sites {
+			if !g.siteHit[s] {
+				g.cur = "true"
+				g.checkNamed("site", fmt.Sprintf("%s#%d.%s.call-present", s.Callee, s.Ord, clauseName(s.C, 0)), "false", "the contract has a call-site clause for "+s.Callee+" but the function no longer makes that call")
+			}
+		}
+	}
 }
 
 func predIndex(b, p *ssa.BasicBlock) int {
